@@ -602,3 +602,6 @@ _amend("C19", "A case is one expression (all assignments, all generators);",
        "In a third of the sampled float cases the eight binary operators are declared in a permuted priority order (generators rebuilt per case). "
        "Every assignment is evaluated a second time through f(st) on ONE stack that is initialised again with st.Init(...) for every evaluation. "
        "A case is one expression (all assignments, all generators);")
+_amend("C02", "closures that capture nothing, applied to argument-independent values, with host calls inside",
+       "binary operators (& | + * -, and & | on booleans) with a host call ik(c)/pk(c) as ONE operand and a constant as the other one, in either "
+       "order; closures that capture nothing, applied to argument-independent values, with host calls inside")
